@@ -158,6 +158,7 @@
 (assert (forall ((hf Int) (PS (Array Int Int)) (A (Array Int Int)) (X (Array Int Int)) (s Int))
   (! (= (chain hf PS A X s 0) X) :pattern ((chain hf PS A X s 0)))))
 ;@ needs chain
+;@ defines chain
 (assert (forall ((hf Int) (PS (Array Int Int)) (A (Array Int Int)) (X (Array Int Int)) (s Int) (k Int))
   (! (=> (>= k 0) (= (chain hf PS A X s (+ k 1)) (randF hf PS (store A 6 (+ s k)) (chain hf PS A X s k))))
      :pattern ((chain hf PS A X s (+ k 1))))))
@@ -218,3 +219,42 @@
                       (randHash hf PS (store (store A 5 (- t 1)) 6 i) (cat (lnode hf PS A PK o n (- t 1) (* 2 i)) 32 (lnode hf PS A PK o n (- t 1) (+ (* 2 i) 1)) 32))
                       (lnode hf PS A PK o n (- t 1) (- (llen n (- t 1)) 1))))))
      :pattern ((lnodeS hf PS A PK o n t i)))))
+; addrTI(type, idx): the hash address with type word 3 = type, word 4 = idx and every other word 0
+(declare-fun addrTI (Int Int) (Array Int Int))
+;@ needs addrTI
+(assert (forall ((ty Int) (ix Int) (k Int)) (! (= (select (addrTI ty ix) k) (ite (= k 3) ty (ite (= k 4) ix 0))) :pattern ((select (addrTI ty ix) k)))))
+; ---- WOTS+ public key recomputed from a signature (RFC 8391 Algorithm 6) as a byte string ----
+; wdig: digit i of (message digits || checksum digits); sh = 8 - (len2*lw) % 8, nb = ceil(len2*lw / 8)
+; wshift(x, sh) = (x << sh) mod 2^32 for the shift amounts 0..8 that occur (8 - (len2*lg w) % 8)
+(declare-fun wshift (Int Int) Int)
+;@ needs wshift
+(assert (forall ((x Int) (sh Int))
+  (! (= (wshift x sh)
+        (mod (* x (ite (= sh 0) 1 (ite (= sh 1) 2 (ite (= sh 2) 4 (ite (= sh 3) 8 (ite (= sh 4) 16 (ite (= sh 5) 32 (ite (= sh 6) 64 (ite (= sh 7) 128 256))))))))) 4294967296))
+     :pattern ((wshift x sh)))))
+(declare-fun wdig ((Array Int Int) Int Int Int Int Int Int Int) Int)
+;@ needs wdig
+;@ defines wdig
+(assert (forall ((M (Array Int Int)) (mo Int) (i Int) (lw Int) (w Int) (len1 Int) (sh Int) (nb Int))
+  (! (= (wdig M mo i lw w len1 sh nb)
+        (ite (< i len1) (bwdig M mo i lw)
+             (bwdig (toByteN (wshift (wsum M mo len1 lw w) sh) nb) 0 (- i len1) lw)))
+     :pattern ((wdig M mo i lw w len1 sh nb)))))
+(declare-fun wpkNode (Int (Array Int Int) (Array Int Int) (Array Int Int) Int (Array Int Int) Int Int Int Int Int Int Int) (Array Int Int))
+;@ needs wpkNode
+;@ defines wpkNode
+(assert (forall ((hf Int) (PS (Array Int Int)) (A (Array Int Int)) (SG (Array Int Int)) (so Int) (M (Array Int Int)) (mo Int) (lw Int) (w Int) (len1 Int) (sh Int) (nb Int) (i Int))
+  (! (= (wpkNode hf PS A SG so M mo lw w len1 sh nb i)
+        (chain hf PS (store A 5 i) (sub SG (+ so (* 32 i)) 32) (wdig M mo i lw w len1 sh nb) (- (- w 1) (wdig M mo i lw w len1 sh nb))))
+     :pattern ((wpkNode hf PS A SG so M mo lw w len1 sh nb i)))))
+(declare-fun wpkArr (Int (Array Int Int) (Array Int Int) (Array Int Int) Int (Array Int Int) Int Int Int Int Int Int) (Array Int Int))
+;@ needs wpkArr
+(assert (forall ((hf Int) (PS (Array Int Int)) (A (Array Int Int)) (SG (Array Int Int)) (so Int) (M (Array Int Int)) (mo Int) (lw Int) (w Int) (len1 Int) (sh Int) (nb Int) (p Int))
+  (! (= (select (wpkArr hf PS A SG so M mo lw w len1 sh nb) p)
+        (select (wpkNode hf PS A SG so M mo lw w len1 sh nb (div p 32)) (mod p 32)))
+     :pattern ((select (wpkArr hf PS A SG so M mo lw w len1 sh nb) p)))))
+(declare-fun llenS (Int Int) Int)
+;@ needs llenS
+(assert (forall ((n Int) (t Int))
+  (! (and (= (llenS n t) (llen n t)) (=> (> t 0) (= (llen n t) (div (+ (llen n (- t 1)) 1) 2))))
+     :pattern ((llenS n t)))))
